@@ -570,6 +570,17 @@ impl std::ops::BitXor for &BigInt
 }
 
 
+impl BigInt
+{
+    /// Whether both the value and the size are the same.
+    /// (`==` only compares the values, so `0x00 == 0x0000`.)
+    pub fn is_identical(&self, rhs: &BigInt) -> bool
+    {
+        self == rhs && self.size == rhs.size
+    }
+}
+
+
 impl std::cmp::PartialEq for BigInt
 {
     fn eq(&self, rhs: &BigInt) -> bool
